@@ -150,6 +150,27 @@ def saturating(rnd, mn=None):
     return None
 
 
+def gamut_surface(rnd, mn=None):
+    """Text on the surface of the sRGB gamut (one channel at 0, another near 255: neon greens, yellows, cyans, magentas ...) whose
+    contrast against a mid / medium-dark background is just below a minimum: clipping makes lightness and chroma searches behave
+    differently here. The *background* is steered so that the vivid text stays exactly what it is."""
+    for _ in range(200):
+        hi = rnd.randrange(225, 256)
+        mid = rnd.randrange(0, 256)
+        t = [0, hi, mid]
+        rnd.shuffle(t)
+        t = tuple(t)
+        m = mn or rnd.choice(THRESHOLDS)
+        b0 = tuple(rnd.randrange(20, 200) for _ in range(3))
+        b = steer(b0, t, m * rnd.uniform(0.85, 0.998))
+        if b is None:
+            continue
+        r = wcag.ratio(t, b)
+        if 0.8 * m <= r < m:
+            return t, b
+    return None
+
+
 def midtone_bg(rnd):
     """Background whose luminance leaves room on both sides."""
     while True:
@@ -166,7 +187,7 @@ def side(text, bg):
 def pair_classes(rnd, n, large=None, vr=None):
     """Yield (class, text, bg) triples, n of them, stratified."""
     classes = ["uniform", "near", "near", "hair", "grey", "named", "equal", "bw_bg",
-               "mid_light", "mid_dark", "below", "below", "websafe", "saturating", "vivid_unfavoured"]
+               "mid_light", "mid_dark", "below", "below", "websafe", "saturating", "vivid_unfavoured", "gamut_surface"]
     out = []
     i = 0
     while len(out) < n:
@@ -198,6 +219,10 @@ def pair_classes(rnd, n, large=None, vr=None):
             v = rnd.choice([85, 97, 102, 110, 119, 128, 60, 72])
             b = (v, v, v) if rnd.random() < 0.5 else tuple(min(255, max(0, v + rnd.randrange(-20, 21))) for _ in range(3))
             out.append((c, t, b))
+        elif c == "gamut_surface":
+            g = gamut_surface(rnd)
+            if g:
+                out.append((c, g[0], g[1]))
         elif c == "saturating":
             g = saturating(rnd)
             if g:
